@@ -110,6 +110,30 @@ UPD_TAGS = {
     "tags_same": lambda tags: dict(tags),
     "tags_none_j": lambda tags: {"j": None},
 }
+def _tags_inplace_add(tags):
+    tags["k"] = "z"  # mutates the mapping it was given and returns the same object
+    return tags
+
+
+def _tags_inplace_pop(tags):
+    tags.pop("k", None)  # merge semantics: a key missing from the result is NOT removed
+    tags["n"] = "1"
+    return tags
+
+
+def _fields_inplace_set(f):
+    f["n"] = 7
+    return f
+
+
+def _fields_inplace_clear(f):
+    f.clear()  # returns the emptied mapping: nothing to merge, nothing changes
+    return f
+
+
+UPD_TAGS["tags_inplace_add"] = _tags_inplace_add
+UPD_TAGS["tags_inplace_pop"] = _tags_inplace_pop
+
 UPD_FIELDS = {
     "fields_inc_x": lambda f: (
         {**f, "x": f["x"] + 1}
@@ -121,6 +145,10 @@ UPD_FIELDS = {
     "fields_same": lambda f: dict(f),
     "fields_none_y": lambda f: {"y": None},
 }
+
+
+UPD_FIELDS["fields_inplace_set"] = _fields_inplace_set
+UPD_FIELDS["fields_inplace_clear"] = _fields_inplace_clear
 
 
 def real_updaters():
